@@ -141,8 +141,9 @@ def extract(src) -> dict:
     helpers = ast.parse(src("fieldcompare/io/vtk/_helpers.py"))
     table = None
     for n in helpers.body:
-        if isinstance(n, ast.Assign) and len(n.targets) == 1 and isinstance(n.targets[0], ast.Name) \
-                and n.targets[0].id == "_VTK_TYPE_TO_DTYPE" and isinstance(n.value, ast.Dict):
+        tgt = n.targets[0] if (isinstance(n, ast.Assign) and len(n.targets) == 1) else \
+            (n.target if isinstance(n, ast.AnnAssign) else None)          # `NAME = {…}` or `NAME: Dict[…] = {…}`
+        if isinstance(tgt, ast.Name) and tgt.id == "_VTK_TYPE_TO_DTYPE" and isinstance(n.value, ast.Dict):
             table = []
             for k, v in zip(n.value.keys, n.value.values):
                 if not (isinstance(k, ast.Constant) and isinstance(k.value, str)):
